@@ -215,13 +215,16 @@ CLAIMED = {
     "C16": {
         "text": "Lean 4 theorems (Props/C16.lean) over an abstract workbook of typed cells: whole numbers render as the integer's decimal text, booleans as 1/0, strings "
                 "verbatim, pure times as hh:mm:ss of fixed shape, the sheet read is the requested one with rows as wide as the sheet (C16_sheet, C16_padding), "
-                "a sheet outside the workbook is a data-format error; xlrd's serial-to-date arithmetic is checked on sampled dates by kernel evaluation. "
+                "a sheet outside the workbook is a data-format error; C16_date: for every real calendar date from 1900-03-01 on (no upper bound) the cell whose serial "
+                "number is that day renders as YYYY-MM-DD hh:mm:ss of exactly that date - xlrd's Julian-day arithmetic (xldate_as_tuple) is proved to invert the "
+                "proleptic Gregorian calendar stated naively (leap-year rule + summed month lengths; Proofs/ExcelDate.lean: century correction, year register, "
+                "month split, March-based ordinal). "
                 "Correspondence: workbooks written with xlsxwriter (all cell kinds, integers to 2^53, floats, dates over 1900-03-01..9999-12-31 incl. month ends, "
-                "seconds of a day, 1-3 sheets x Sheet 1-4) read by the real code, compared with the documented rendering computed from the values and with the model; "
-                "XlsxRowWriter round trip; truncated workbooks.",
-        "note": "Partial: float shortest-repr, xlrd/xlsxwriter byte formats and cell typing are parameters of the model; the date arithmetic is proved only on samples "
-                "(a general proof was attempted with omega and does not go through), the whole range is sampled by the correspondence.",
-        "technique": "Lean 4 proof over abstract typed cells (partial) + generated-workbook correspondence",
+                "seconds of a day, fractions of a second, 1-3 sheets x Sheet 1-4) read by the real code, compared with the documented rendering computed from the values and with "
+                "the model, which receives dates as civil dates and computes the serial number with the specification's calendar; XlsxRowWriter round trip; truncated workbooks.",
+        "note": "Partial: float shortest-repr, xlrd/xlsxwriter byte formats, cell typing and the rounding of a fraction of a second to whole seconds (done in floating point by xlrd) "
+                "are parameters of the model.",
+        "technique": "Lean 4 proof over abstract typed cells (date arithmetic for all dates; number repr is a parameter) + generated-workbook correspondence",
         "design_ref": "DESIGN.md §6 C16",
     },
     "C17": {
